@@ -302,14 +302,15 @@ package core
 //@ ghost lastGetId string
 //@ ghost lastGetProp string
 //@ ghost lastGetVal interface{}
+//@ ghost lastGetHave bool
 //@ ghost lastSetId string
 //@ ghost lastSetProp string
 //@ ghost lastSetVal interface{}
 //@ ghost lastRemId string
 //@ ghost lastRemProp string
 //@ func GetProp
-//@   ghost-ensures lastGetId == id && lastGetProp == prop && lastGetVal == result0
-//@   also-modifies lastGetId, lastGetProp, lastGetVal
+//@   ghost-ensures lastGetId == id && lastGetProp == prop && lastGetVal == result0 && lastGetHave == result1
+//@   also-modifies lastGetId, lastGetProp, lastGetVal, lastGetHave
 //@ func SetProp
 //@   ghost-ensures lastSetId == id && lastSetProp == prop && lastSetVal == val
 //@   also-modifies lastSetId, lastSetProp, lastSetVal
@@ -532,7 +533,7 @@ package core
 //@ func (*Location).getParents
 //@   assume-entry lastGetProp == "?"
 //@   ensures[C09.getparents_reads_the_property_each_time] lastGetProp == "parents" && lastGetId == ""
-//@   ensures[C09.getparents_returns_stored_strings] result1 == nil && is(lastGetVal, []string) ==> result0 == lastGetVal.([]string)
+//@   ensures[C09.getparents_returns_stored_strings] result1 == nil && lastGetHave && is(lastGetVal, []string) ==> result0 == lastGetVal.([]string)
 
 //@ func (*SearchResults).Merge
 //@   ensures[C09.merge_concatenates] len(sr.Found) == old(len(sr.Found)) + old(len(more.Found)) && sr.Checked == old(sr.Checked) + old(more.Checked) && result == sr
